@@ -200,6 +200,30 @@ func (wk *worker) runCase(c *Case) (res CaseResult) {
 	if multiDeliver > 0 {
 		count("round-with-several-go-deliveries(drain)")
 	}
+	flushRounds, laterWide := map[int]bool{}, false
+	firstFlush := 0
+	for _, cl := range w.calls {
+		flushRounds[cl.round] = true
+		if firstFlush == 0 || cl.round < firstFlush {
+			firstFlush = cl.round
+		}
+	}
+	for _, cl := range w.calls {
+		if cl.round > firstFlush && len(cl.items) >= 2 {
+			laterWide = true
+		}
+	}
+	count("batch-waves:" + bucket(len(flushRounds)))
+	if laterWide {
+		count("later-wave-batch-call-with-2+-items(nested coalescing)")
+	}
+	nDep := 0
+	for _, ev := range w.events {
+		if (ev.kind == "go" || ev.kind == "batch") && ev.dep >= 0 {
+			nDep++
+		}
+	}
+	count("helper-calls-below-an-async-ancestor:" + bucket(nDep))
 	if w.pumped > 0 {
 		count("safety-pump-released-a-gate")
 	}
@@ -281,6 +305,9 @@ func (wk *worker) runCase(c *Case) (res CaseResult) {
 	// ---- oracle 2: batching
 	if msg, key := w.batchOracle(); msg != "" {
 		fail("property:batch", key, "%s", msg)
+	}
+	if msg := w.progressOracle(); msg != "" {
+		fail("property:batch", "", "%s", msg)
 	}
 	// ---- oracle 1: response == all-synchronous response
 	if run.status != ref.status {
